@@ -5,6 +5,7 @@ from bounded.api import quiet
 BOUND = ("d<=4, 0<=lmin<=lmax<=lmin+4 initialisation (all configurations); all update sequences of length<=4 (quick: d<=2, thorough: d<=3, "
          "length<=5) over every level vector of the bounding box [lmin-1, lmax+2]^d (refinable or not); seeded random sequences of "
          "length 40 for d<=6; inclusion-exclusion clause evaluated for every l in the bounding box")
+BOUND += "; fault / magnitude additions: refused initialisation requests (invalid level range) on a used object after every non-trivial sequence"
 RULE = BOUND + "; a case is one (d,lmin,lmax,request sequence); non-trivial = at least one request was refinable"
 CLAUSES = {
     "B.inv.downward_closed": "every backward neighbour above lmin of a member of old|active is in old|active (and, stronger, in old)",
